@@ -656,3 +656,6 @@ func sameOwners(a, b interface{}) bool {
 }
 
 var _ = strings.Contains
+
+// V builds a violation (for scenario-level oracles living outside this package).
+func V(prop, clause, f string, a ...interface{}) Violation { return viol(prop, clause, f, a...) }
